@@ -163,11 +163,16 @@ def audit_axioms(prop_id, modules, theorems):
 # ---------------------------------------------------------------------------------------------
 
 _counter = [0]
+_counter_lock = __import__("threading").Lock()
 
 
 def _tmp(prefix, suffix):
-    _counter[0] += 1
-    return os.path.join(WORK, f"{prefix}_{os.getpid()}_{_counter[0]}{suffix}")
+    # called from the worker threads of run_impl_sharded too: the counter is taken under a lock (two threads once drew the same
+    # name and one removed the other's file — a machinery error of the thorough tier of C01, not a property violation)
+    with _counter_lock:
+        _counter[0] += 1
+        n = _counter[0]
+    return os.path.join(WORK, f"{prefix}_{os.getpid()}_{n}{suffix}")
 
 
 def run_impl(ops, timeout_ms=5000):
